@@ -390,6 +390,29 @@ func c09Gen(t *rapid.T) c09Case {
 		}
 		c.Rooms = append(c.Rooms, js)
 	}
+	if rapid.IntRange(0, 3).Draw(t, "redactedCopy") == 0 {
+		// a variant of the base state in which one of the cached events (create / power levels / join
+		// rules) is replaced by its REDACTED copy: same event ID, other content
+		which := rapid.SampledFrom([]string{"m.room.power_levels", "m.room.power_levels", "m.room.join_rules", "m.room.create"}).Draw(t, "redactWhich")
+		var js []vfBytes
+		replaced := false
+		for _, a := range built[0].Auth {
+			if evStr(a, "type") == which && !replaced {
+				red := rredact(version, a)
+				if vtraits[version].Format == 1 {
+					red = red.with("event_id", jstr(evStr(a, "event_id")))
+				}
+				replaced = !jequal(red, a)
+				a = red
+			}
+			js = append(js, vfBytes(jplain(a)))
+		}
+		if replaced {
+			variants = append(variants, base)
+			built = append(built, built[0])
+			c.Rooms = append(c.Rooms, js)
+		}
+	}
 	ns := rapid.IntRange(0, 6).Draw(t, "nsteps")
 	// focused mode: one sender's events only, so that anything a checker remembers about "the last
 	// sender" (membership, level) is exercised across state changes
@@ -413,7 +436,14 @@ func c09Gen(t *rapid.T) c09Case {
 	np := rapid.IntRange(0, 3).Draw(t, "npad")
 	for i := 0; i < np; i++ {
 		var e raEv
-		switch rapid.IntRange(0, 5).Draw(t, "padKind") {
+		switch rapid.IntRange(0, 8).Draw(t, "padKind") {
+		case 6:
+			// the auth-relevant event TYPES under another state key are ordinary, un-needed state
+			e = raEv{Type: "m.room.power_levels", Sender: c07Creator, StateKey: raSK("backup"), Content: jobj("users_default", jnum(100), "events_default", jnum(100), "state_default", jnum(0), "invite", jnum(100), "users", jv{K: 'o'})}
+		case 7:
+			e = raEv{Type: "m.room.join_rules", Sender: c07Creator, StateKey: raSK("backup"), Content: jobj("join_rule", jstr(rapid.SampledFrom([]string{"public", "invite", "knock"}).Draw(t, "padJRK")))}
+		case 8:
+			e = raEv{Type: "m.room.create", Sender: c07Alice, StateKey: raSK("backup"), Content: jobj("creator", jstr(c07Alice), "m.federate", jv{K: 'f'}, "room_version", jstr(version))}
 		case 3:
 			// a join-rules event whose content does not decode: un-needed by every non-member event
 			e = raEv{Type: "m.room.join_rules", Sender: c07Creator, StateKey: raSK(""), Content: rapid.SampledFrom([]jv{jobj("join_rule", jnum(5)), jobj("join_rule", jstr("restricted"), "allow", jstr("x")), jobj("join_rule", jv{K: 'o'})}).Draw(t, "padJR")}
